@@ -952,7 +952,7 @@ def run(ctx: core.Ctx):
     w = max(2, core.NCPU // 3)
     jobs = {
         "Builder exhaustive": dict(module="Builder", cfg="Builder_quick.cfg" if q else "Builder_thorough.cfg", env=env, workers=w, timeout=3000),
-        "Builder simulate": dict(module="Builder", cfg="Builder_sim.cfg", env=env, workers=8, simulate=f"num={24 if q else 500}", depth=45,
+        "Builder simulate": dict(module="Builder", cfg="Builder_sim.cfg", env=env, workers=8, simulate=f"num={24 if q else 300}", depth=45,
                                  seed=ctx.seed + 1, timeout=3000),
         "Builder design": dict(module="Builder", cfg="Builder_design.cfg", env=env, workers=2, timeout=3000),
         "Builder vacuity": dict(module="Builder", cfg="Builder_vacuity.cfg", env=env, workers=1, timeout=1500),
